@@ -523,8 +523,7 @@ func predBatches(c batchCase, o *evid.Obs) error {
 				if g.Value == nil || g.Values != nil {
 					return fmt.Errorf("vector sample must carry value; body=%s", clip(body))
 				}
-				// the instant writer prints whole seconds
-				if err := checkPoint(g.Value, point{last.ms / 1000 * 1000 * 1e6, last.v}, true); err != nil {
+				if err := checkPoint(g.Value, point{last.ms * 1e6, last.v}, true); err != nil {
 					return fmt.Errorf("series fp=%d: %v; body=%s", s.FP, err, clip(body))
 				}
 				continue
